@@ -21,6 +21,10 @@ QUERIES += [
           desc="whitelist_signature_parse rejects every (count byte, size_t length) pair with length != 33+32*count, reading only input[0]",
           bounds="all 256 x 2^64 (count, length) pairs"),
 ]
+for k in (1, 2):
+    QUERIES.append(Query("wl_handover_k%d" % k, S, "harness_wl_handover", defs=["K=%d" % k, "MAXK=4", "WL_HANDOVER"], unwind=66, timeout=900,
+                         desc="whitelist_verify with %d keys, well-formed scalars: verdict == ring verifier's verdict over one ring of all keys with the proof's e0 and scalars, also when an entry's key tweak fails (degenerate entry must not abort verification)" % k,
+                         bounds="n_keys = %d" % k))
 for k in (0, 1, 7):
     QUERIES.append(Query("wl_codec_k%d" % k, S, "harness_wl_parse_accept", defs=["K=%d" % k], unwind=8300, timeout=900,
                          flags=["--max-field-sensitivity-array-size", "9000"],
